@@ -273,6 +273,8 @@ class Report:
                 'trusted_base': self.trusted,
                 'theorems': self.proof['theorems'],
                 'proof_problems': self.proof['problems'],
+                'axioms': self.proof.get('axioms', {}),
+                'leanchecker': self.proof.get('leanchecker', 'thorough tier only'),
                 'correspondence': self.corr, 'oracles': self.oracle,
                 'evaluations': self.evaluations, 'distinct_nontrivial': len(self.nontrivial),
                 'rule': 'distinct = distinct canonical JSON of the generated case; non-trivial = the case reaches the operation under test with at least one key / file / token that varies (see per-suite notes)',
@@ -336,4 +338,16 @@ def _prove(rep, pid, theorems, extra_targets=()):
         rep.proof['problems'] += a['problems']
         rep.unproved('audit of %s failed' % pid, {'kind': 'audit', 'problems': a['problems'][:10]})
         return False
+    if rep.tier == 'thorough':
+        # independent re-check of the compiled modules (every project module the property imports)
+        mods = sorted(import_cone([mod]))
+        t0 = time.time()
+        rc, out = run(['lake', 'env', 'leanchecker'] + mods, cwd=LEAN, timeout=3600)
+        rep.proof['leanchecker'] = {'modules': mods, 'rc': rc, 'seconds': round(time.time() - t0, 1),
+                                    'output_tail': out[-400:]}
+        if rc != 0:
+            rep.proof['problems'].append('leanchecker rejected the compiled modules: ' + out[-300:])
+            rep.unproved('leanchecker does not accept the compiled proofs of %s' % pid,
+                         {'kind': 'leanchecker', 'log_tail': out[-1500:]})
+            return False
     return True
